@@ -65,7 +65,7 @@ class SpecFn:
             body = v.t if body is None else z3.If(pc, v.t, body)
         if body is None:
             raise Unsupported(f"spec {self.name}: no returning path")
-        core.SPEC_DEFS[self.name] = core.SpecDef(F, [f.t for f in formals], body, side)
+        core.SPEC_DEFS[self.name] = core.SpecDef(F, [f.t for f in formals], body, side, list(it.fresh_ghosts))
 
     def __call__(self, interp, st, *args):
         F = self.decl()
